@@ -20,6 +20,7 @@ import (
 
 	"github.com/tendermint/tendermint/types"
 
+	"verif/ref"
 	"verif/sim"
 	"verif/verdict"
 )
@@ -43,6 +44,7 @@ func runSimCase(c *verdict.Ctx, idx int) {
 	net := sim.NewNet(r, sim.NetOpt{Seed: c.SubSeed("sim-keys", idx), Powers: cfg.Powers, Faulty: cfg.Faulty,
 		SkipTimeoutCommit: cfg.Skip, InitialHeight: cfg.InitialH})
 	defer net.Close()
+	net.JournalOn = true
 	net.Start()
 	net.Pump()
 	type seen struct {
@@ -116,6 +118,77 @@ func runSimCase(c *verdict.Ctx, idx int) {
 			net.ByzStep()
 		}
 	})
+	// ---- completeness: conflicting votes that consensus has seen become evidence once their height is decided.
+	// Judged only where it is certain that the vote set saw the conflict: two validly signed ROUND-0 votes of
+	// one faulty validator (the round-0 vote sets exist from the start of a height), same type, different block
+	// ids, both delivered to the node while it was at that height - in either way the second one can come in
+	// (refused as conflicting, or admitted because of a peer's majority claim).
+	cache := ref.NewSigCache()
+	for _, i := range net.Order {
+		nd := net.Nodes[i]
+		if nd.Halted != "" {
+			continue
+		}
+		type slot struct {
+			h   int64
+			typ int32
+			idx int32
+		}
+		first := map[slot]*types.Vote{}
+		reportedOnce := map[slot]bool{}
+		for _, d := range nd.Journal {
+			if d.Kind != "vote" || d.Vote == nil || d.AtHeight != d.Vote.Height || d.Vote.Round != 0 {
+				continue
+			}
+			v := d.Vote
+			g, known := net.AddrIdx[string(v.ValidatorAddress)]
+			pre, ok := nd.PreState[v.Height]
+			if !known || !net.IsFaulty[g] || !ok || v.ValidatorIndex < 0 || int(v.ValidatorIndex) >= pre.Validators.Size() {
+				continue
+			}
+			val := pre.Validators.Validators[v.ValidatorIndex]
+			if !bytes.Equal(val.Address, v.ValidatorAddress) ||
+				!cache.Verify(val.PubKey, ref.CanonicalVoteSignBytes(net.ChainID, int32(v.Type), v.Height, v.Round, v.BlockID, v.Timestamp), v.Signature) {
+				continue
+			}
+			k := slot{v.Height, int32(v.Type), v.ValidatorIndex}
+			f := first[k]
+			if f == nil {
+				first[k] = v
+				continue
+			}
+			if f.BlockID.Equals(v.BlockID) || reportedOnce[k] {
+				continue
+			}
+			reportedOnce[k] = true
+			c.Count("sim.round0_equivocations_delivered_to_a_node", 1)
+			if v.Height > nd.Blocks.Height() {
+				continue // that height is not decided at this node yet
+			}
+			found := false
+			match := func(ev types.Evidence) bool {
+				dv, ok := ev.(*types.DuplicateVoteEvidence)
+				return ok && dv.VoteA.Height == v.Height && dv.VoteA.Round == 0 && dv.VoteA.Type == v.Type && bytes.Equal(dv.VoteA.ValidatorAddress, v.ValidatorAddress)
+			}
+			pend, _ := nd.EvPool.PendingEvidence(-1)
+			for _, ev := range pend {
+				found = found || match(ev)
+			}
+			for h := v.Height + 1; h <= nd.Blocks.Height() && !found; h++ {
+				if b := nd.Blocks.LoadBlock(h); b != nil {
+					for _, ev := range b.Evidence.Evidence {
+						found = found || match(ev)
+					}
+				}
+			}
+			if found {
+				c.Count("sim.round0_equivocations_turned_into_evidence", 1)
+			} else {
+				c.Violation("sim-seen-equivocation-never-became-evidence", fmt.Sprintf("node %d was delivered two validly signed conflicting round-0 votes (type %v) of validator %X at height %d while it was at that height, the height is decided, but no evidence for it is pending or committed at that node", i, v.Type, v.ValidatorAddress, v.Height),
+					map[string]interface{}{"stream": "sim", "case": idx, "config": cfg, "node": i, "height": v.Height, "vote_a": f.String(), "vote_b": v.String()})
+			}
+		}
+	}
 	c.Eval()
 	c.Count("sim.executions", 1)
 	c.Count("sim.decisions", int64(net.Stats["decisions"]))
